@@ -318,6 +318,21 @@ func runC15(c *fw.Case) {
 		m.addr = strings.ToUpper(m.addr)
 		m.sig = signer.sign(c15Payload(m.addr, m.refID, m.link))
 		recs = append(recs, m)
+		// an RSA signature is a number as wide as the modulus: one in 256 starts with a zero
+		// byte, which is part of the signature (every fourth RSA chain looks for one)
+		if signer.rsaKey != nil && c.Index%16 == 3 {
+			for try := 0; try < 800; try++ {
+				m = base("rsa-signature-with-leading-zero-byte")
+				link := c15LinkValue(m.refID, randHex(c, 32))
+				sg := signer.sign(c15Payload(m.addr, m.refID, link))
+				if raw, _ := base64.StdEncoding.DecodeString(sg); len(raw) > 0 && raw[0] == 0 {
+					m.link, m.sig = link, sg
+					recs = append(recs, m)
+					c.Count("rsa_signatures_with_leading_zero_byte", 1)
+					break
+				}
+			}
+		}
 		m = base("signed-by-other-key-with-matching-cert")
 		m.cert = other.pem
 		m.algo = other.algo
@@ -359,7 +374,7 @@ func runC15(c *fw.Case) {
 		checkLinks("after storing record " + r.label)
 		// expected validity from the independent verifier over what is stored
 		want := r.storeLink && r.storeSig && independentVerify(c15Payload(r.addr, r.refID, r.link), r.sig, r.algo, r.cert)
-		if r.label == "valid" || r.label == "signed-by-other-key-with-matching-cert" || r.label == "link-ending-with-separator" || r.label == "empty-link" || r.label == "link-with-inner-separators" || r.label == "long-link" || r.label == "address-in-upper-case-spelling" {
+		if r.label == "valid" || r.label == "signed-by-other-key-with-matching-cert" || r.label == "link-ending-with-separator" || r.label == "empty-link" || r.label == "link-with-inner-separators" || r.label == "long-link" || r.label == "address-in-upper-case-spelling" || r.label == "rsa-signature-with-leading-zero-byte" {
 			if !want {
 				c.Inconclusive("harness produced an invalid 'valid' record")
 				return
